@@ -395,6 +395,9 @@ class CatalogWriter(AbstractContextManager, HandlesDataChunk):
         buffersize:
             Optional, maximum number of records to store in the internal cache
             of each patch writer.
+        num_patches:
+            Optional, the number of patches that must receive data (patch IDs
+            ``0`` to ``num_patches - 1``), e.g. the number of patch centers.
 
     Attributes:
         cache_directory:
@@ -413,6 +416,7 @@ class CatalogWriter(AbstractContextManager, HandlesDataChunk):
 
     __slots__ = (
         "_chunk_info",
+        "_num_expected",
         "cache_directory",
         "buffersize",
         "writers",
@@ -425,8 +429,10 @@ class CatalogWriter(AbstractContextManager, HandlesDataChunk):
         chunk_info: DataChunkInfo,
         overwrite: bool = True,
         buffersize: int = -1,
+        num_patches: int | None = None,
     ) -> None:
         self._chunk_info = chunk_info
+        self._num_expected = num_patches
         self.cache_directory = Path(cache_directory)
         cache_exists = self.cache_directory.exists()
 
@@ -534,7 +540,11 @@ class CatalogWriter(AbstractContextManager, HandlesDataChunk):
             if writer.num_processed == 0:
                 empty_patches.add(patch_id)
 
-        for patch_id in empty_patches:
+        if self._num_expected is not None:
+            # e.g. patch centers that did not attract any objects
+            empty_patches.update(set(range(self._num_expected)) - self.writers.keys())
+
+        for patch_id in sorted(empty_patches):
             raise ValueError(f"patch with ID {patch_id} contains no data")
 
         patch_ids = np.fromiter(self.writers.keys(), dtype=np.int16)
@@ -580,14 +590,17 @@ def write_patches_unthreaded(
 
     """
     with reader:
+        num_patches = None
         if patch_centers is not None:
             patch_centers = get_patch_centers(patch_centers).to_3d()
+            num_patches = len(patch_centers)
 
         with CatalogWriter(
             cache_directory=path,
             chunk_info=reader.copy_chunk_info(drop_patch_ids=True),
             overwrite=overwrite,
             buffersize=buffersize,
+            num_patches=num_patches,
         ) as writer:
             chunk_iter = Indicator(reader) if progress else iter(reader)
             for chunk in chunk_iter:
@@ -669,6 +682,7 @@ if parallel.use_mpi():
         chunk_info: DataChunkInfo,
         overwrite: bool = True,
         buffersize: int = -1,
+        num_patches: int | None = None,
     ) -> None:
         """A dedicated writer process that recieves a dictionary with patch IDs
         and patch data to write using a :obj:`CatalogWriter`, terminated when
@@ -679,6 +693,7 @@ if parallel.use_mpi():
             chunk_info=chunk_info,
             overwrite=overwrite,
             buffersize=buffersize,
+            num_patches=num_patches,
         ) as writer:
             while (patches := recv(source=MPI.ANY_SOURCE, tag=1)) is not EndOfQueue:
                 writer.process_patches(patches)
@@ -747,6 +762,11 @@ if parallel.use_mpi():
                 chunk_info=reader.copy_chunk_info(drop_patch_ids=True),
                 overwrite=overwrite,
                 buffersize=buffersize,
+                num_patches=(
+                    None
+                    if patch_centers is None
+                    else len(get_patch_centers(patch_centers))
+                ),
             )
 
         elif rank in worker_config.active_ranks:
@@ -817,6 +837,7 @@ else:
         chunk_info: DataChunkInfo = field(kw_only=True)
         overwrite: bool = field(default=True, kw_only=True)
         buffersize: int = field(default=-1, kw_only=True)
+        num_patches: int | None = field(default=None, kw_only=True)
 
         def __post_init__(self) -> None:
             self.process = multiprocessing.Process(target=self.task)
@@ -844,6 +865,7 @@ else:
                     overwrite=self.overwrite,
                     chunk_info=self.chunk_info,
                     buffersize=self.buffersize,
+                    num_patches=self.num_patches,
                 ) as writer:
                     while (patches := self.patch_queue.get()) is not EndOfQueue:
                         if patches is AbortWriting:
@@ -934,6 +956,7 @@ else:
                 chunk_info=reader.copy_chunk_info(drop_patch_ids=True),
                 overwrite=overwrite,
                 buffersize=buffersize,
+                num_patches=None if patch_centers is None else len(patch_centers),
             ):
                 chunk_iter = Indicator(reader) if progress else iter(reader)
                 for chunk in chunk_iter:
